@@ -1259,3 +1259,320 @@ def dddmp_parser_model(P, R):
                 'level of that variable; the levels handed to the loader '
                 'are those of the same variables; node lines become '
                 '(level, ELSE, THEN)')
+
+
+def _build_manager(order, tables, externals, keep_garbage=False):
+    """A consistent small manager over the variables `order` (level
+    order) holding the functions `tables` (truth tables over sorted
+    variable names), `externals` of them referenced from outside.
+    -> (env, roots) with the tables of dd.bdd.BDD."""
+    import itertools
+    names = sorted(order)
+    levels = {v: k for k, v in enumerate(order)}
+    mgr = _SpecManager(levels)
+    rows = list(itertools.product((False, True), repeat=len(names)))
+
+    def build(rowset, k):
+        # rowset: dict assignment-so-far; k: level
+        if k == len(order):
+            val = tt[rows.index(tuple(assign[n] for n in names))]
+            return 1 if val else -1
+        var = order[k]
+        assign[var] = False
+        lo = build(rowset, k + 1)
+        assign[var] = True
+        hi = build(rowset, k + 1)
+        del assign[var]
+        return mgr.find_or_add(k, lo, hi)
+    roots = []
+    for tt in tables:
+        assign = dict()
+        roots.append(build(None, 0))
+    succ = dict(mgr.succ)
+    ref = {u: 0 for u in succ}
+    ref[1] = 1
+    for u, (i, v, w) in succ.items():
+        if v is not None:
+            ref[abs(v)] += 1
+            ref[abs(w)] += 1
+    ext = dict()
+    for k in externals:
+        ref[abs(roots[k])] += 1
+        ext[abs(roots[k])] = ext.get(abs(roots[k]), 0) + 1
+    # nodes not reachable from an external reference would be garbage:
+    # drop them, as a collection before the call would
+    changed = not keep_garbage
+    while changed:
+        changed = False
+        for u in list(succ):
+            if u != 1 and ref[u] == 0:
+                i, v, w = succ.pop(u)
+                ref.pop(u)
+                ref[abs(v)] -= 1
+                ref[abs(w)] -= 1
+                changed = True
+    env = {
+        'self': interp.Sym('self'),
+        'self.vars': dict(levels),
+        'self._level_to_var': {k: v for v, k in levels.items()},
+        'self._succ': succ,
+        'self._pred': {t: u for u, t in succ.items()},
+        'self._ref': ref,
+        'self._ite_table': {(2, 1, -1): 2},
+        'self._min_free': max(succ) + 1,
+        'self.max_nodes': 1000,
+    }
+    return env, ext
+
+
+def _tt_of(env, u, names):
+    """Truth table of reference `u` in the tables of `env`."""
+    import itertools
+    by_level = env['self._level_to_var']
+    succ = env['self._succ']
+    out = []
+    for bits in itertools.product((False, True), repeat=len(names)):
+        val = dict(zip(names, bits))
+        x, neg, steps = u, False, 0
+        while abs(x) != 1:
+            steps += 1
+            if steps > 50:
+                return None
+            if x < 0:
+                neg = not neg
+            i, lo, hi = succ[abs(x)]
+            x = hi if val[by_level[i]] else lo
+        if x < 0:
+            neg = not neg
+        out.append(not neg)
+    return tuple(out)
+
+
+def _manager_complaints(env, ext):
+    """What is wrong with the tables of a manager (None if nothing)."""
+    succ, pred, ref = env['self._succ'], env['self._pred'], env['self._ref']
+    vars_, l2v = env['self.vars'], env['self._level_to_var']
+    n = len(vars_)
+    if sorted(vars_.values()) != list(range(n)):
+        return f'the levels {vars_} are not 0..{n - 1}'
+    if l2v != {k: v for v, k in vars_.items()}:
+        return (f'_level_to_var = {l2v} is not the inverse of vars = '
+                f'{vars_}')
+    if pred != {t: u for u, t in succ.items()}:
+        return ('the unique table is not the inverse of the node table: '
+                f'_succ = {succ}, _pred = {pred}')
+    want = {u: 0 for u in succ}
+    want[1] = 1
+    for u, t in succ.items():
+        if u == 1:
+            if t[0] != n:
+                return f'the terminal is at level {t[0]}, not {n}'
+            continue
+        i, v, w = t
+        if not (isinstance(v, int) and isinstance(w, int)) or \
+                abs(v) not in succ or abs(w) not in succ:
+            return f'node {u} = {t} has an edge to a node that is gone'
+        if w < 0:
+            return f'node {u} = {t} has a complemented high edge'
+        if v == w:
+            return f'node {u} = {t} is redundant (equal successors)'
+        if not (0 <= i < n) or succ[abs(v)][0] <= i or \
+                succ[abs(w)][0] <= i:
+            return (f'node {u} = {t} is not above its successors (levels '
+                    f'{succ[abs(v)][0]}, {succ[abs(w)][0]})')
+        want[abs(v)] += 1
+        want[abs(w)] += 1
+    for u, k in ext.items():
+        if u not in succ:
+            return f'node {u}, referenced from outside, is gone'
+        want[u] += k
+    if set(ref) != set(succ):
+        return f'_ref has the nodes {sorted(ref)}, _succ {sorted(succ)}'
+    if ref != want:
+        return (f'the reference counts are {ref}; one per edge and '
+                f'outside reference gives {want}')
+    mf = env.get('self._min_free')
+    if not isinstance(mf, int) or mf <= 1 or mf in succ:
+        return f'_min_free = {mf} is not an unused number above 1'
+    return None
+
+
+def swap_model(P, R):
+    """`BDD.swap(x, y, all_levels)` interpreted on small managers (three
+    variables, shared nodes, complemented edges, outside references),
+    for both adjacent pairs, by level and by name, with and without the
+    per-level index.  C07: the two variables exchange levels and nothing
+    else moves; every node referenced from outside keeps its number and
+    its function; the diagram stays reduced and the tables consistent
+    (inverse pairs, counts = edges + outside references); the per-level
+    index handed in lists afterwards exactly the nodes of each level;
+    the computed table is reset; the sizes before and after are
+    returned."""
+    import itertools
+    f = P.func('dd.bdd.BDD.swap')
+    prm = [p for p in f.params if p != 'self']
+    if len(prm) != 3:
+        raise AnalysisError(f'{f.qualname}: expected (x, y, all_levels)')
+    stubs = ClassStubs(P, 'dd.bdd.BDD', extra={
+        '_request_reordering': lambda m, c, a, k: None})
+    names = ['a', 'b', 'c']
+    rows = list(itertools.product((False, True), repeat=3))
+
+    def tt(fn):
+        return tuple(bool(fn(*r)) for r in rows)
+    funcs = [
+        tt(lambda a, b, c: a and b),
+        tt(lambda a, b, c: a != c),
+        tt(lambda a, b, c: (b if a else c)),
+        tt(lambda a, b, c: not (a or b) or c),
+        tt(lambda a, b, c: b != c),
+        tt(lambda a, b, c: a),
+        tt(lambda a, b, c: (a or b) and not c),
+        tt(lambda a, b, c: a == (b and c)),
+    ]
+    cases = [
+        (['a', 'b', 'c'], [0, 1], [0, 1]),
+        (['a', 'b', 'c'], [2, 3, 4], [0, 2]),
+        (['b', 'c', 'a'], [2, 6, 7], [0, 1, 2]),
+        (['c', 'a', 'b'], [1, 3, 5, 7], [0, 1, 3]),
+        (['a', 'c', 'b'], [6, 4, 0, 2], [0, 1, 2, 3]),
+        (['a', 'b', 'c'], [5], [0]),
+        (['a', 'b', 'c'], [], []),
+        # with nodes that nothing refers to (sifting does not collect
+        # between swaps)
+        (['a', 'b', 'c'], [0, 1, 4], [0], True),
+        (['b', 'a', 'c'], [3, 6, 2], [1], True),
+    ]
+    problems = dict()
+    n = 0
+    for order, which, externals, *garbage in cases:
+        base, ext = _build_manager(order, [funcs[k] for k in which],
+                                   externals, bool(garbage))
+        for x in (0, 1):
+            for form in ('levels', 'names', 'reversed', 'index'):
+                n += 1
+                env = copy.deepcopy({k: v for k, v in base.items()
+                                     if k != 'self'})
+                env['self'] = base['self']
+                if form == 'names':
+                    args = (order[x], order[x + 1])
+                elif form == 'reversed':
+                    args = (x + 1, x)
+                else:
+                    args = (x, x + 1)
+                index = None
+                if form == 'index':
+                    index = {k: set() for k in range(len(order))}
+                    for u, t in env['self._succ'].items():
+                        if u != 1:
+                            index[t[0]].add(u)
+                env[prm[0]], env[prm[1]] = args
+                env[prm[2]] = index
+                before = _snapshot(env)
+                shared = {k: env[k] for k in ('self.vars',)}
+                tts = {u: _tt_of(env, u, names) for u in ext}
+                what = (f'variables {order}, nodes '
+                        f'{before["self._succ"]}, outside references to '
+                        f'{sorted(ext)}: swap{args}' + (
+                            ' with the per-level index' if index
+                            is not None else ''))
+                try:
+                    out, m = interp.run_function(f.node, env, stubs)
+                except interp.Unknown as e:
+                    R.undecided('R-INVMAP', f.qualname, 'swap model',
+                                str(e))
+                    return
+                if out[0] != 'return':
+                    problems.setdefault('refuses-valid', (
+                        f'{what}: {out[0]} {out[1]}'))
+                    continue
+                want_vars = dict(before['self.vars'])
+                want_vars[order[x]], want_vars[order[x + 1]] = x + 1, x
+                if m.env['self.vars'] != want_vars:
+                    problems.setdefault('vars-not-swapped', (
+                        f'{what}: levels afterwards {m.env["self.vars"]}, '
+                        f'expected {want_vars}'))
+                    continue
+                bad = _manager_complaints(m.env, ext)
+                if bad:
+                    problems.setdefault('tables', f'{what}: {bad}')
+                    continue
+                for k, obj in shared.items():
+                    if m.env[k] is not obj:
+                        problems.setdefault('order-maps', (
+                            f'{what}: `{k}` is bound to a new object; '
+                            'dd.autoref.BDD shares the old one, which '
+                            'keeps the order before the swap'))
+                moved = [u for u in ext
+                         if _tt_of(m.env, u, names) != tts[u]]
+                if moved:
+                    problems.setdefault('function-changed', (
+                        f'{what}: node(s) {moved}, referenced from '
+                        'outside, denote another function afterwards '
+                        f'(nodes now {m.env["self._succ"]})'))
+                    continue
+                if m.env.get('self._ite_table'):
+                    problems.setdefault('no-reset', (
+                        f'{what}: the computed table keeps entries made '
+                        'for the old order'))
+                if index is not None:
+                    want_index = {k: set() for k in range(len(order))}
+                    for u, t in m.env['self._succ'].items():
+                        if u != 1:
+                            want_index[t[0]].add(u)
+                    got_index = {k: set(v) for k, v in index.items()
+                                 if k != len(order)}
+                    if got_index != want_index:
+                        problems.setdefault('wrong-level-set', (
+                            f'{what}: the per-level index afterwards is '
+                            f'{got_index}; the nodes are at '
+                            f'{want_index}: the next swap works on the '
+                            'wrong nodes'))
+                res = out[1]
+                # (without the index the call collects garbage first)
+                old = before['self._succ']
+                if index is None:
+                    live, todo = {1}, list(ext)
+                    while todo:
+                        u = todo.pop()
+                        if u in live:
+                            continue
+                        live.add(u)
+                        todo += [abs(old[u][1]), abs(old[u][2])]
+                    n_old = len(live)
+                else:
+                    n_old = len(old)
+                if isinstance(res, tuple) and len(res) == 2:
+                    if res[0] != n_old or \
+                            res[1] != len(m.env['self._succ']):
+                        problems.setdefault('sizes', (
+                            f'{what}: returns {res}; the sizes before '
+                            f'and after are ({n_old}, '
+                            f'{len(m.env["self._succ"])}): sifting picks '
+                            'positions by these numbers'))
+                else:
+                    problems.setdefault('sizes', (
+                        f'{what}: returns {res}, not (old size, new '
+                        'size)'))
+    keymap = {
+        'refuses-valid': ('R-ACCEPT', 'rejects-valid', 'swap'),
+        'vars-not-swapped': ('R-INVMAP', 'vars-not-swapped', 'vars'),
+        'tables': ('R-INVMAP', 'tables', '_succ'),
+        'order-maps': ('R-INVMAP', 'order-maps', 'vars'),
+        'function-changed': ('R-INVMAP', 'function-changed', 'swap'),
+        'no-reset': ('R-INVAL', 'no-reset', '_ite_table'),
+        'wrong-level-set': ('R-LEVELSET', 'wrong-level-set',
+                            'all_levels'),
+        'sizes': ('R-INVMAP', 'sizes', 'return'),
+    }
+    for k, msg in sorted(problems.items()):
+        rule, sub, construct = keymap[k]
+        R.violation(rule, sub, f.qualname, construct, msg,
+                    unit=f.unit.rel, line=f.lineno)
+    if not problems:
+        R.holds('R-INVMAP', f.qualname,
+                f'swap model ({n} calls on {len(cases)} managers): levels '
+                'exchanged, outside references keep number and function, '
+                'diagram reduced, tables and counts consistent, per-level '
+                'index exact, computed table reset, sizes returned')
+    return n
